@@ -164,14 +164,20 @@ def run_impl(binary, prop, ops_text, timeout=600, extra_env=None, args=()):
     env.setdefault("GOMEMLIMIT", "4GiB")
     if extra_env:
         env.update(extra_env)
-    p = subprocess.run([binary, prop] + list(args), input=ops_text, capture_output=True, text=True, timeout=timeout, env=env)
+    try:
+        p = subprocess.run([binary, prop] + list(args), input=ops_text, capture_output=True, text=True, timeout=timeout, env=env)
+    except subprocess.TimeoutExpired:
+        return None, f"harness did not finish within {timeout}s (the implementation hangs or spins on this input)"
     if p.returncode != 0:
         return None, f"harness exited {p.returncode}: {p.stderr[-2000:]}"
     return p.stdout.splitlines(), None
 
 
 def run_lean(prop, mode, ops_text, timeout=600):
-    p = subprocess.run([DRIVER, prop, mode], input=ops_text, capture_output=True, text=True, timeout=timeout)
+    try:
+        p = subprocess.run([DRIVER, prop, mode], input=ops_text, capture_output=True, text=True, timeout=timeout)
+    except subprocess.TimeoutExpired:
+        return None, f"driver did not finish within {timeout}s"
     if p.returncode != 0:
         return None, f"driver exited {p.returncode}: {p.stderr[-2000:]}"
     return p.stdout.splitlines(), None
